@@ -31,13 +31,17 @@ static const scpi_command_t cmds[] = { {"R", h_r, 1}, SCPI_CMD_LIST_END };
 static tc_t T;
 static unsigned long long n_calls = 0, n_nontrivial = 0, n_ws_exp = 0;
 
+static int delivery = 0;     /* 0: "R <lit>" NL;  1: "R 987654321.75e1" NL "R <lit>" in ONE call, then a zero-length flush */
 static int send(const char * lit, size_t ll, int reader) {
     char msg[400];
     size_t ml = 0;
-    msg[ml++] = 'R'; msg[ml++] = ' '; memcpy(msg + ml, lit, ll); ml += ll; msg[ml++] = '\n';
+    if (delivery) { memcpy(msg, "R 987654321.75e1\n", 17); ml = 17; }
+    msg[ml++] = 'R'; msg[ml++] = ' '; memcpy(msg + ml, lit, ll); ml += ll;
+    if (!delivery) msg[ml++] = '\n';
     rd = reader; r_ok = -1;
     tr_reset();
     SCPI_Input(&T.ctx, msg, (int) ml);
+    if (delivery) { r_ok = -1; SCPI_Input(&T.ctx, NULL, 0); n_calls++; }
     n_calls++;
     if (T.ctx.buffer.position) tc_reinit(&T, cmds);
     return r_ok == 1 && tc_nerr == 0;
@@ -206,6 +210,9 @@ int main(int argc, char ** argv) {
             unsigned long long d; unsigned fbits; char ints[4][32];
             if (sscanf(p, "%llx %x %31s %31s %31s %31s", &d, &fbits, ints[0], ints[1], ints[2], ints[3]) != 6) continue;
             check_decimal(lit, ll, d, (uint32_t) fbits, ints);
+            /* every 4th literal also behind another message in the same input call, executed by a flush (nothing
+             * terminates the literal there except the library's own NUL) */
+            if ((mc_idx & 3) == 0 && ll < 300) { delivery = 1; check_decimal(lit, ll, d, (uint32_t) fbits, ints); delivery = 0; }
         } else {
             char v[40]; int nbits; unsigned long long d; unsigned fbits;
             if (sscanf(p, "%39s %d %llx %x", v, &nbits, &d, &fbits) != 4) continue;
